@@ -682,6 +682,10 @@ theorem int64_eq (z : Int) : int64 z = if i64 z then .ok z else .error .valueErr
   · rw [if_pos h]; exact if_pos h
   · rw [if_neg h]; exact if_neg h
 
+
+theorem bind_ok_uint64 (x : Int) (r : PyM Int) (h : r = .ok x) : (r >>= uint64) = uint64 x := by
+  subst h; rfl
+
 theorem transpiledUint_dec (ds : Text) (h1 : ds ≠ []) (h2 : ds.all isDigit = true) (h3 : ds.length ≤ maxDigits) :
     transpiledUint ds = uint64 (decVal ds) := by
   obtain ⟨z1, z2, z3, _, z5, z6⟩ := dropZeros_spec ds h2
@@ -689,8 +693,7 @@ theorem transpiledUint_dec (ds : Text) (h1 : ds ≠ []) (h2 : ds.all isDigit = t
   have p : pyIntLiteral (dropZeros ds) = .ok (decVal (dropZeros ds) : Int) := by
     simpa [signText, signed] using pyIntLiteral_dec false _ z1 z2 z3 (Nat.le_trans (z5 h1) h3)
   unfold transpiledUint
-  rw [e, p, z6]
-  rfl
+  exact bind_ok_uint64 _ _ (by rw [e, p, z6])
 
 theorem transpiledUint_hex (ds : Text) (h1 : ds ≠ []) (h2 : ds.all isHex = true) :
     transpiledUint ([48, 120] ++ ds) = uint64 (hexStrVal ds) := by
@@ -698,7 +701,6 @@ theorem transpiledUint_hex (ds : Text) (h1 : ds ≠ []) (h2 : ds.all isHex = tru
   have p : pyIntLiteral ([48, 120] ++ ds) = .ok (hexStrVal ds : Int) := by
     simpa [signText, signed] using pyIntLiteral_hex false ds h1 h2
   unfold transpiledUint
-  rw [e, p]
-  rfl
+  exact bind_ok_uint64 _ _ (by rw [e]; exact p)
 
 end Cel.Str
